@@ -202,26 +202,28 @@ Section Made.
   Lemma made_succs_of_In u s : In s (succs_of P u) <-> In s (succs g u).
   Proof. unfold succs_of. rewrite in_map_iff. split.
     - intros [f [<- Hf]]. apply filter_In in Hf. destruct Hf as [H1 H2]. apply mem_str_In in H2.
-      apply made_funits in H1. destruct H1 as [n [_ [_ ->]]]. simpl in *. apply sort_str_In in H2.
+      apply made_funits in H1. destruct H1 as [n [_ [_ ->]]]. simpl in *. rewrite sort_str_In in H2.
       apply (gwf_sym g Hwf). auto.
     - intros Hs. apply (gwf_sym g Hwf) in Hs. exists (the_funit g at_ creg s). split; auto.
       apply filter_In. split.
       + apply made_funits. exists s. split; [apply (gwf_preds_in g Hwf u s Hs)|]. split; auto.
         intros E. rewrite E in Hs. destruct Hs.
-      + simpl. apply mem_str_In, sort_str_In. auto. Qed.
+      + simpl. apply mem_str_In. rewrite sort_str_In. auto. Qed.
 
   Lemma made_out_names o : In o (out_names P) <-> In o (g_nodes g) /\ succs g o = [].
-  Proof. unfold out_names. rewrite in_app_iff, (md_inout _ _ _ _ Hm), (md_out _ _ _ _ Hm), !in_map_iff.
+  Proof. unfold out_names. rewrite in_app_iff, (md_inout _ _ _ _ Hm), (md_out _ _ _ _ Hm).
+    rewrite map_map. simpl. rewrite map_id.
     assert (K : forall i, In o (mp_cls g i false) <-> In o (g_nodes g) /\ (0 <? in_degree g o) = i /\ succs g o = []).
     { intros i. rewrite mp_cls_In. unfold out_degree. rewrite Nat.ltb_ge. split.
       - intros [H1 [H2 H3]]. split; auto. split; auto. destruct (succs g o); auto. simpl in H3. lia.
       - intros [H1 [H2 H3]]. rewrite H3. simpl. auto. }
     split.
-    - intros [[n [<- H]]|[f [<- H]]].
-      + simpl. apply K in H. tauto.
-      + apply isort_In, in_map_iff in H. destruct H as [n [<- H]]. simpl. apply K in H. tauto.
+    - intros [H|H].
+      + apply K in H. tauto.
+      + apply in_map_iff in H. destruct H as [f [<- H]]. apply isort_In, in_map_iff in H.
+        destruct H as [n [<- H]]. simpl. apply K in H. tauto.
     - intros [H1 H2]. destruct (0 <? in_degree g o) eqn:E.
-      + right. exists (the_funit g at_ creg o). split; auto. apply isort_In, in_map_iff. exists o. split; auto.
-        apply K. auto.
-      + left. exists o. split; auto. apply K. auto. Qed.
+      + right. apply in_map_iff. exists (the_funit g at_ creg o). split; auto. apply isort_In, in_map_iff. exists o.
+        split; auto. apply K. auto.
+      + left. apply K. auto. Qed.
 End Made.
